@@ -40,7 +40,8 @@ EXTENDS Integers, Sequences, FiniteSets, TLC
 
 VARIABLES exp,     \* per register: values its software-visible content may have in this cycle
                    \*   [why: clause in charge, alts: set of patterns <<value, words left free>>]
-          stg,     \* per register: abstract back-buffer of atomic writes (per word, -1 = never written)
+          stg,     \* per register: abstract back-buffer of atomic writes (per word, -1 = not written since
+                   \*   the last commit: such a word is left free at the next commit)
           rd,      \* <<data due on the master's dat_r in this cycle>> or <<>>
           bsel,    \* bank whose page was addressed in the previous cycle (0: none)
           owe,     \* per register <<re strobes owed, we strobes owed, data of the owed re>>: the strobe a
@@ -287,7 +288,9 @@ CStep(c, iv, o) ==
             Slice(FF(r), c.fpos[r][j], 1) = (IF RE(r) = 1 THEN Slice(V(r), c.foff[r][j], 1) ELSE 0)
   IN
   /\ exp' = [r \in 1..N |-> expn(r)]
-  /\ stg' = IF tr # 0 /\ op = 1 /\ c.atom[tr] /\ ~last THEN [stg EXCEPT ![tr][wi + 1] = wdat] ELSE stg
+  /\ stg' = IF tr = 0 \/ op # 1 \/ ~c.atom[tr] THEN stg
+            ELSE IF ~last THEN [stg EXCEPT ![tr][wi + 1] = wdat]
+            ELSE [stg EXCEPT ![tr] = [i \in 1..MaxW |-> -1]]       \* whether the back-buffer survives a commit is left open
   /\ rd' = IF op = 2 /\ tr # 0 THEN <<rdval>> ELSE <<>>
   /\ bsel' = BankAt(c, adr)
   /\ owe' = [r \in 1..N |-> owen(r)]
